@@ -7,6 +7,7 @@ import (
 	"net"
 	"strings"
 	"sync"
+	"sync/atomic"
 	"time"
 
 	"verif/sim/simnet"
@@ -70,6 +71,7 @@ func worldUDP(w *World) {
 	backendGot := map[string]int{}
 	backendSent := map[string]int{}   // replies the backend sent
 	repliesAtFrpc := map[string]int{} // replies that really reached the client's local sockets
+	var legFaultsOff atomic.Bool
 	userLeg := w.In.Faults
 	lossP, dupP, reoP := 0.0, 0.0, 0.0
 	if userLeg {
@@ -82,7 +84,7 @@ func worldUDP(w *World) {
 		// faults only on the user -> public endpoint leg and the backend -> client leg
 		fromUser := strings.HasPrefix(from.IP.String(), "10.0.3.")
 		fromBackend := from.Port == 9200
-		if !(fromUser || fromBackend) || !userLeg {
+		if !(fromUser || fromBackend) || !userLeg || legFaultsOff.Load() {
 			return 1, 0, true
 		}
 		copies, extra := 1, time.Duration(0)
@@ -278,6 +280,80 @@ func worldUDP(w *World) {
 	}
 	wg.Wait()
 
+	// recovery phase: the faults have stopped (and a replaced work connection has long been re-established); new
+	// users now send a few small datagrams far apart. Whatever happened before, this is light load on a healthy
+	// tunnel: every datagram reaches the backend and every reply its user.
+	type rsent struct {
+		payload []byte
+		at      time.Duration
+	}
+	var recSent [][]rsent
+	var recGot []map[string]int
+	if w.KnobBool("recovery_phase", 70) {
+		legFaultsOff.Store(true)
+		// the last fault may be the loss of every work connection while the tunnel is idle
+		if w.In.Faults && !tcpMux && w.KnobBool("idle_reset_workconns", 50) {
+			time.Sleep(time.Duration(r.Range(1, 5)) * time.Second)
+			ids := w.Net.PairsMatching(func(link string, id int) bool { return strings.HasPrefix(link, "frpc1>10.0.0.1:7000") })
+			for _, id := range ids[min(1, len(ids)):] {
+				w.Net.ResetPair(id)
+				w.Probe("udp.idle_workconn_reset")
+			}
+		}
+		time.Sleep(time.Duration(r.Range(3, 20)) * time.Second)
+		nrec := w.KnobPick("recovery_users", 1, 2, 3)
+		recSent = make([][]rsent, nrec)
+		recGot = make([]map[string]int, nrec)
+		var wg2 sync.WaitGroup
+		for u := 0; u < nrec; u++ {
+			u := u
+			recGot[u] = map[string]int{}
+			ur := simnet.NewRand(w.In.Seed, fmt.Sprintf("udprecover%d", u))
+			conn, err := simnet.ListenUDP("udp", &net.UDPAddr{IP: net.ParseIP(fmt.Sprintf("10.0.3.%d", 80+u))})
+			if err != nil {
+				w.Fail("user socket: %v", err)
+			}
+			stop := make(chan struct{})
+			wg2.Add(2)
+			w.UserN.Go(func() {
+				defer wg2.Done()
+				buf := make([]byte, 65536)
+				for {
+					conn.SetReadDeadline(time.Now().Add(500 * time.Millisecond))
+					n, _, err := conn.ReadFromUDP(buf)
+					if err != nil {
+						select {
+						case <-stop:
+							return
+						default:
+							continue
+						}
+					}
+					mu.Lock()
+					recGot[u][string(buf[:n])]++
+					mu.Unlock()
+				}
+			})
+			w.UserN.Go(func() {
+				defer wg2.Done()
+				k := ur.Range(2, 6)
+				for i := 0; i < k; i++ {
+					p := genStream(ur, 12+ur.Intn(150), ur.Intn(4))
+					binary.BigEndian.PutUint32(p[0:4], 0xC0DF0000|uint32(u))
+					binary.BigEndian.PutUint32(p[4:8], uint32(i))
+					mu.Lock()
+					recSent[u] = append(recSent[u], rsent{p, w.Net.Now()})
+					mu.Unlock()
+					conn.WriteToUDP(p, pubAddr)
+					time.Sleep(time.Duration(ur.Range(300, 1500)) * time.Millisecond)
+				}
+				time.Sleep(10 * time.Second)
+				close(stop)
+			})
+		}
+		wg2.Wait()
+	}
+
 	mu.Lock()
 	defer mu.Unlock()
 	// 1. what the backend got is what was really delivered to the public endpoint: never corrupted, truncated, merged, split, duplicated
@@ -334,6 +410,14 @@ func worldUDP(w *World) {
 	// 3. light load without faults: everything arrives
 	// "light load" also means that the offered bytes (about doubled by the message encoding) stay well below what the
 	// simulated path between client and server can carry (window / round-trip time): beyond that, drops are overload
+	lastPhase1 := time.Duration(0)
+	for _, res := range results {
+		for _, s := range res.sent {
+			if s.at > lastPhase1 {
+				lastPhase1 = s.at
+			}
+		}
+	}
 	light := !w.In.Faults && nusers*per <= 60
 	if cfg := w.Net.Cfg(); light && cfg.BaseLatency+cfg.Jitter > 0 {
 		rate := float64(cfg.Window) / (2 * (cfg.BaseLatency + cfg.Jitter).Seconds())
@@ -368,6 +452,25 @@ func worldUDP(w *World) {
 				}
 				if len(rep) <= pktSize && res.got[rep] == 0 {
 					viol("delivery", "reply-lost-at-light-load", "the reply to user %d's %d-byte datagram never arrived", u, len(s.payload))
+					break
+				}
+			}
+		}
+	}
+	// 4. after the faults: light load on a healthy tunnel
+	if len(recSent) > 0 {
+		w.Check("C03.delivery-after-faults")
+		for u, ss := range recSent {
+			for _, s := range ss {
+				if dialFaultAt >= 0 && s.at > dialFaultAt-time.Second && s.at < dialFaultAt+time.Second {
+					continue
+				}
+				if backendGot[string(s.payload)] == 0 {
+					viol("recovery", "datagram-lost-after-faults-stopped", "a %d-byte datagram of a new user, sent %v after the last datagram of the first phase on an idle tunnel, never reached the backend (sudp=%v mux=%v faults=%v)", len(s.payload), (s.at - lastPhase1).Round(time.Second), sudp, tcpMux, w.In.Faults)
+					break
+				}
+				if recGot[u][string(mkReply(s.payload))] == 0 {
+					viol("recovery", "reply-lost-after-faults-stopped", "the reply to a %d-byte datagram of a new user on an idle tunnel never arrived (sudp=%v mux=%v faults=%v)", len(s.payload), sudp, tcpMux, w.In.Faults)
 					break
 				}
 			}
